@@ -60,3 +60,25 @@ fix_alias_guarded (mpz_ptr w, mpz_srcptr u, mpz_srcptr v)
   mpz_mul (w, u, u);
   mpz_add (w, w, v);
 }
+
+/* one limb short: the carry of the shift is stored at index n of a block sized n */
+void
+fix_extent_carry (mpz_ptr w, mpz_srcptr u)
+{
+  mp_size_t n = ABSIZ (u);
+  mp_ptr wp;
+  mp_limb_t cy;
+  if (n == 0)
+    {
+      SIZ (w) = 0;
+      return;
+    }
+  wp = MPZ_REALLOC (w, n);
+  cy = mpn_lshift (wp, PTR (u), n, 1);
+  if (cy != 0)
+    {
+      wp[n] = cy;
+      n++;
+    }
+  SIZ (w) = n;
+}
